@@ -180,6 +180,12 @@ def run_case(case: Dict[str, Any], ctx) -> None:
     ctx.count("evaluations")
     specs = case["params"]
     params = [make_param(s, torch, uu) for s in specs]
+    frng = rng_for(case["seed"], "frozen")
+    if frng.random() < 0.25:  # some parameters frozen (requires_grad=False): the rule looks at tags, not at trainability
+        for p in params:
+            if frng.random() < 0.4:
+                p.requires_grad_(False)
+        ctx.count("form:some-parameters-frozen")
     lr_kind, base_lr = case["lr_kind"], case["lr"]
 
     def mk_lr(v):
